@@ -210,10 +210,13 @@ class IPv6(object):
         if not line:
             return line
 
-        for ip in re.findall(self.pattern, line, re.I):
-            if any(re.search(_i, ip[0], re.I) for _i in self._ignore_list):
+        # the longest first, like IPv4: an address that is a textual prefix of another one on the line
+        # must not be replaced inside the longer one
+        ips = [each[0] for each in re.findall(self.pattern, line, re.I)]
+        for ip in sorted(ips, key=len, reverse=True):
+            if any(re.search(_i, ip, re.I) for _i in self._ignore_list):
                 continue
-            line = _sub_ip(line, ip[0])
+            line = _sub_ip(line, ip)
         return line
 
     def mapping(self):
